@@ -4,6 +4,7 @@ import EupsModel.Drv.Util
 import EupsModel.Drv.C09Pinned
 import EupsModel.Model.LockR
 import EupsModel.Model.LockPathR
+import EupsModel.Model.LockCmd
 /-! Driver handler of C09 (model `c09`): the repaired lock protocol (`Model/LockR.lean`, `Model/LockPathR.lean`).
 
 * `{"m":"c09","op":"run","procs":[{"kind":"E"|"S","lp":null|n,"tries":n}..],"sched":[pid..]}` runs the schedule
@@ -15,6 +16,9 @@ import EupsModel.Model.LockPathR
   `N`) and returns a set of maximal schedules that takes every transition of the state graph at least once, plus
   statistics: states, transitions, states violating `Mutex` (the theorem says none), quiescent states with residue
   (none).  Exploration support for the correspondence check — not part of any proof.
+* `{"m":"c09","op":"cmdtable"}` the lock bracket of the command line (`Model/LockCmd.lean`): per command the registered
+  lock type, whether it updates a stack, who releases; `{"op":"cmdline","cmd":name,"help":b,"nolocks":b,"enabled":b,
+  "env_path":[..],"Z":[..]|null,"z":n|null}` the lock one command line takes and the stacks it takes it on.
 * `pinned_run`, `pinned_explore`, `pinned_runpath`, `pinned_racefree`: the same operations on the pinned protocol
   (`Drv/C09Pinned.lean`), model only. -/
 namespace EupsModel.Drv.C09
@@ -266,12 +270,60 @@ def opRunPath (j : Json) : Except String Json := do
       | _ => Json.null).toArray),
     ("listing", Json.arr listing.toArray)])
 
+/-! ### the lock bracket of the command line -/
+
+open EupsModel.LockCmd in
+def cmdName : Cmd → String
+  | .flavor => "flavor" | .path => "path" | .startup => "startup" | .pkgroot => "pkgroot" | .flags => "flags"
+  | .list => "list" | .pkgConfig => "pkg-config" | .uses => "uses" | .expandbuild => "expandbuild"
+  | .expandtable => "expandtable" | .declare => "declare" | .undeclare => "undeclare" | .remove => "remove"
+  | .admin => "admin" | .adminBuildCache => "admin buildCache" | .adminClearCache => "admin clearCache"
+  | .adminClearServerCache => "admin clearServerCache" | .adminClearLocks => "admin clearLocks"
+  | .adminListLocks => "admin listLocks" | .adminListCache => "admin listCache" | .adminInfo => "admin info"
+  | .adminShow => "admin show" | .distrib => "distrib" | .distribClean => "distrib clean"
+  | .distribCreate => "distrib create" | .distribDeclare => "distrib declare" | .distribInstall => "distrib install"
+  | .distribList => "distrib list" | .distribPath => "distrib path" | .distribTags => "distrib tags"
+  | .tags => "tags" | .vro => "vro" | .help => "help" | .setup => "setup"
+
+def kindJson : Option Kind → Json
+  | some k => Json.str (kindStr k)
+  | none => Json.null
+
+def opCmdTable (_ : Json) : Except String Json :=
+  pure (Json.arr (LockCmd.Cmd.all.map fun c => Json.mkObj [
+    ("name", cmdName c), ("lock", kindJson (LockCmd.lockType c)), ("updates", LockCmd.updates c),
+    ("explicit", LockCmd.explicitRelease c), ("sub", LockCmd.isSub c)]).toArray)
+
+def opCmdLine (j : Json) : Except String Json := do
+  let nm ← (← j.getObjVal? "cmd").getStr?
+  let c ← match LockCmd.Cmd.all.find? (fun c => cmdName c == nm) with
+    | some c => pure c
+    | none => throw s!"unknown command {nm}"
+  let o : LockCmd.Opts := { help := (jbool j "help").toOption.getD false,
+                            nolocks := (jbool j "nolocks").toOption.getD false,
+                            enabled := (jbool j "enabled").toOption.getD true }
+  let env ← (← jarr j "env_path").mapM fun v => v.getNat?
+  let z ← match j.getObjVal? "Z" with
+    | .ok (Json.arr a) => do pure (some (← a.toList.mapM fun v => v.getNat?))
+    | _ => pure none
+  let zz ← match j.getObjVal? "z" with
+    | .ok Json.null => pure none
+    | .ok v => do pure (some (← v.getNat?))
+    | .error _ => pure none
+  let k := LockCmd.bracket c o
+  pure (Json.mkObj [
+    ("kind", kindJson k),
+    ("stacks", toJson (match k with | some _ => LockCmd.lockedStacks env z zz | none => [])),
+    ("explicit", LockCmd.explicitRelease c), ("updates", LockCmd.updates c)])
+
 def handle : Handler := fun j => do
   let op ← (← j.getObjVal? "op").getStr?
   match op with
   | "run" => opRun j
   | "explore" => opExplore j
   | "runpath" => opRunPath j
+  | "cmdtable" => opCmdTable j
+  | "cmdline" => opCmdLine j
   | "pinned_run" => C09Pinned.opRun j
   | "pinned_explore" => C09Pinned.opExplore j
   | "pinned_runpath" => C09Pinned.opRunPath j
